@@ -12,12 +12,12 @@ MODEL_VO = ["theories/C16/Corr.vo"]
 ALLOWED_AXIOMS = []
 
 SCOPE = ("partial: set_only_refines is proved at full strength (every fan-out m >= 2, every history of Set/Increase/Decrease: no panic, invariant WF, "
-         "every query vs the sorted map, TotalAccumulatedValue as the code computes it) and remove_safe_partial (every non-panicking history incl. Remove: the stored "
+         "every query vs the sorted map, TotalAccumulatedValue = the true total since /repo 9b85b1164c) and remove_safe_partial (every non-panicking history incl. Remove: the stored "
          "leaves are the map's contents, so Get and ordered iteration are right; any store still satisfying WF answers every query correctly); "
-         "the full statement C16_full is refuted (finding F2a-F2d: TotalAccumulatedValue, and Remove) by vm_compute witnesses replayed on the real code")
+         "the full statement C16_full is refuted (findings F2b-F2d, all in Remove) by vm_compute witnesses replayed on the real code")
 EXPLANATION = ("Faithful Gallina model C16/Model.v of osmoutils/sumtree (tree.go, node.go) over a sorted (level, key) store, a sorted-map "
                "specification C16/Spec.v, the invariant WF of DESIGN 9.4 (C16/Statement.v). The full statement is false of the model and of the "
-               "real code (finding F2a-F2d): Properties/C16.v carries it with vm_compute witnesses that are replayed on the Go driver on every run. "
+               "real code (findings F2b-F2d in Remove; F2a fixed in /repo by 9b85b1164c): Properties/C16.v carries it with vm_compute witnesses that are replayed on the Go driver on every run. "
                "The model is tied to /repo by running the real sumtree on an IAVL store on generated histories for m in {2,3,4,5,8,10,32} and "
                "comparing, after every operation, every Get, split, subset sum, prefix sum, total, forward/reverse/ranged iteration and the raw "
                "store dump decoded with the exported Node/Leaf types (node by node), panics included as an enum.")
@@ -31,7 +31,8 @@ TRUSTED = [
 ASSUMPTIONS = [
     "levels fit uint16 (a tree of fan-out >= 2 with 2^16 levels is unreachable); the store holds only this tree's keys",
     "a mutation that panics ends the history (the store is not atomic at this level; later observations would depend on a half-done write)",
-    "SubsetAccumulation with start > end and PrefixSum(nil) are outside the documented domain: corresponded with the model, not judged by the oracle",
+    "SubsetAccumulation with start > end, SubsetAccumulation(nil, nil) and PrefixSum(nil) (the code reads a nil end as the empty key) are outside the documented domain: "
+    "corresponded with the model and characterised by theorem (an_subset_code), not judged by the oracle",
 ]
 
 MS = [2, 3, 4, 5, 8, 10, 32]
@@ -60,6 +61,8 @@ def translate():
     roff = int(need(r"key\s*:=\s*iter\.Key\(\)\[(\d+):\]", tree, "root key offset").group(1))
     if off != plen or koff != plen + 2 or roff != plen:
         raise ValueError("C16 translator: key offsets %d/%d/%d do not match prefix length %d" % (off, koff, roff, plen))
+    need(r"func \(t Tree\) TotalAccumulatedValue\(\) osmomath\.Int \{\s*left, exact, right := t\.root\(\)\.accumulationSplit\(nil\)\s*return left\.Add\(exact\)\.Add\(right\)\s*\}",
+         tree, "TotalAccumulatedValue = left+exact+right of root().accumulationSplit(nil) (commit 9b85b1164c)")
     m = need(r"split\s*:=\s*ptr\.tree\.m/(\d+)\s*\+\s*(\d+)", node, "split := ptr.tree.m/2 + 1")
     div, add = int(m.group(1)), int(m.group(2))
     txt = ("(* GENERATED by props/c16.py translate() from /repo/osmoutils/sumtree/{constants,tree,node}.go on every run - do not edit. *)\n"
@@ -298,8 +301,6 @@ def parse_block(cur, c):
     b["subsets"] = {}
     for i in range(nq + 1):
         for j in range(nq + 1):
-            if i == 0 and j == 0:
-                continue
             b["subsets"][(i, j)] = (cur.get(), cur.get())
     b["prefix"] = [(cur.get(), cur.get()) for _ in range(nq + 1)]
     b["total"] = (cur.get(), cur.get())
@@ -347,7 +348,6 @@ def parse_obs(c, flat):
 # ---------------------------------------------------------------------------------------------
 # oracle: a plain sorted map with the same contents (from the property text)
 # ---------------------------------------------------------------------------------------------
-F2A = {"fn": "Tree.TotalAccumulatedValue"}
 F2B = {"fn": "ptr.accumulationSplit", "kind": "panic_after_remove"}
 F2C = {"fn": "ptr.pull", "kind": "stale_sum_after_merge"}
 F2D = {"fn": "ptr.pull", "kind": "first_entry_or_leftmost_node_lost"}
@@ -430,8 +430,8 @@ def merged_nodes(before, after):
 def oracle(c, flat):
     """violations of the property's own predicates in the implementation's observations.
     Each violation: {"what", "rec"}; rec is specific (function + class of failure) so that the known findings
-    F2a..F2d match exactly their own failures and nothing else:
-      F2a  TotalAccumulatedValue returns a wrong number (any history);
+    F2b..F2d match exactly their own failures and nothing else (F2a - TotalAccumulatedValue - is fixed in /repo: a wrong
+    total is judged like every other query):
       F2b  a call panics with index out of range [-1] after a Remove has left a node whose first entry is not its key
            (or a level without its left-most, empty-keyed node);
       F2d  any other wrong answer / panic / dangling or orphaned node in a history after such a Remove (the damaged
@@ -518,6 +518,8 @@ def oracle(c, flat):
             lo, hi = ends[i], ends[j]
             if lo is not None and hi is not None and lo > hi:
                 continue                               # inverted range: outside the documented domain, not judged
+            if lo is None and hi is None:
+                continue                               # SubsetAccumulation(nil, nil): the code treats the nil end as the empty key; corresponded, not judged
             exp = sum(x for kk, x in items if (lo is None or kk >= lo) and (hi is None or kk <= hi))
             if s_ != 0:
                 bad("Tree.SubsetAccumulation", "panic", "SubsetAccumulation(%r,%r) panicked" % (lo, hi), s_)
@@ -536,8 +538,7 @@ def oracle(c, flat):
         if s_ != 0:
             bad("Tree.TotalAccumulatedValue", "panic", "TotalAccumulatedValue panicked", s_)
         elif val != total:
-            # F2a: the code returns left+exact of a split at the empty key
-            v.append({"what": "TotalAccumulatedValue %s = %d, map gives %d" % (where, val, total), "rec": dict(F2A)})
+            bad("Tree.TotalAccumulatedValue", "wrong_total", "TotalAccumulatedValue = %d, map gives %d" % (val, total))
         for name, got, exp in [("Tree.Iterator", b["fwd"], items), ("Tree.ReverseIterator", b["rev"], items[::-1])]:
             if got[0] != 0:
                 bad(name, "panic", "full iteration panicked", got[0])
@@ -723,7 +724,6 @@ def _rm(k):
 
 
 WITNESSES = [
-    ("w_total", F2A, _w(2, [_set(b"gb", 16)], [b"gb"])),
     ("w_panic", F2B, _w(2, [_set(b"a", 1), _set(b"b", 2), _set(b"c", 3), _rm(b"b")], [b"b"])),
     ("w_stale", F2C, _w(3, [_set(bytes([97 + i]), 2 + i) for i in range(9)] + [_rm(b"g"), _rm(b"e"), _rm(b"i"), _rm(b"f")], [b"a"])),
     ("w_empty", F2D, _w(2, [_rm(b"")], [b"a"])),
@@ -741,11 +741,23 @@ def swap_first_unequal(flat):
     return f
 
 
+FIXED_WITNESSES = [("w_total (F2a, fixed by 9b85b1164c)", _w(2, [_set(b"gb", 16)], [b"gb"]))]     # must now be violation-free
+
+
 def selftest_oracle(c, flat):
     """the oracle must flag a perturbed observation: bump the first Get value of the initial block"""
     bad = list(flat)
     bad[2] += 1                       # flat[0]=NewTree status, flat[1]=Get status, flat[2]=Get value of universe[0]
-    return any(v["rec"].get("fn") == "Tree.Get" for v in oracle(c, bad))
+    ok_get = any(v["rec"].get("fn") == "Tree.Get" for v in oracle(c, bad))
+    # ... and a wrong TotalAccumulatedValue on a history without Remove: bump the total of the initial block
+    cur = Cur(flat)
+    cur.get()
+    u, nq = len(c["universe"]), len(c["q"])
+    pos = 1 + 2 * u + 4 * nq + 2 * (nq + 1) ** 2 + 2 * (nq + 1) + 1      # index of the total's value in block 0
+    bad2 = list(flat)
+    bad2[pos] += 1
+    ok_total = any(v["rec"].get("fn") == "Tree.TotalAccumulatedValue" and v["rec"].get("kind") == "wrong_total" for v in oracle(c, bad2))
+    return ok_get and ok_total
 
 
 def correspond(tier, seed, model_ok):
@@ -760,7 +772,7 @@ def correspond(tier, seed, model_ok):
         for j in range(4 if tier == "quick" else 40):
             cases.append(gen_case(r.fork("m%d_%d" % (m, j)), tier, nops=nops, force_m=m, with_rm=(j % 2 == 1)))
     corpus = common.load_corpus(PROP)
-    wit = [w[2] for w in WITNESSES]
+    wit = [w[2] for w in WITNESSES] + [w[1] for w in FIXED_WITNESSES]
     stats = {}
     run_cases(wit + corpus + cases, model_ok, out, "q", stats)
     # the witnesses must reproduce their finding on the implementation
@@ -770,13 +782,19 @@ def correspond(tier, seed, model_ok):
         flat = [int(x) for x in o["flat"]]
         ok = any(v["rec"] == rec for v in oracle(c, flat))
         out.notes.append("witness %s (%s) reproduced on the implementation: %s" % (name, json.dumps(rec), "yes" if ok else "NO"))
+    for (name, c), o in zip(FIXED_WITNESSES, common.run_driver(binary, [w[1] for w in FIXED_WITNESSES])):
+        vs = oracle(c, [int(x) for x in o["flat"]])
+        out.notes.append("former witness %s is clean on the implementation: %s" % (name, "yes" if not vs else "NO"))
+        for v in vs:
+            v["case"] = c
+            out.oracle_violations.append(v)
     # unit checks of the machinery itself
     so = [c for c in cases if not any(o["op"] == "rm" for o in c["ops"])][:1]
     if so:
         o = common.run_driver(binary, so)[0]
         flat = [int(x) for x in o["flat"]]
         if not selftest_oracle(so[0], flat):
-            out.mismatches.append({"what": "selftest: the oracle did not flag a perturbed Get observation", "case": so[0]})
+            out.mismatches.append({"what": "selftest: the oracle did not flag a perturbed Get / TotalAccumulatedValue observation", "case": so[0]})
         if model_ok:
             dg = digest(flat)
             items = [("C16_selftest", COQ_HEADER + "Definition good := %s.\nDefinition bad := %s.\nDefinition bad2 := %s.\n"
@@ -786,7 +804,7 @@ def correspond(tier, seed, model_ok):
             rc, txt = common.coq_eval_many(items)[0]
             if common.parse_nat_list(txt) != [1, 2]:
                 out.mismatches.append({"what": "selftest: case_ok did not reject exactly the perturbed expectations: " + txt[-300:], "case": so[0]})
-            out.notes.append("selftest: oracle flags a perturbed Get; case_ok rejects a perturbed / permuted expectation: ok")
+            out.notes.append("selftest: oracle flags a perturbed Get and a perturbed total; case_ok rejects a perturbed / permuted expectation: ok")
     out.rule = ("cases = histories of %d ops (set/inc/dec, 40%% of histories also remove) over 4-40 byte-string keys (alphabet {00,61,62,ff}, length <= 3, "
                 "shared prefixes, always the empty key, nil and empty slices), fan-out from %s, insertion orders monotone/reverse/outside-in/inside-out/random, "
                 "removal runs of consecutive keys; after NewTree and after every op: Get of every key of the universe, SplitAcc / SubsetAccumulation / PrefixSum "
@@ -873,9 +891,9 @@ TECHNIQUE = ("Coq: faithful Gallina model of tree.go/node.go over a sorted (leve
              "model tied to osmoutils/sumtree by differential correspondence (vm_compute, store dump node by node) + sorted-dict oracle")
 LEVEL_TEXT = ("Machine-checked (Coq 8.16.1, axiom-free). Proved for all fan-outs m >= 2 and all histories of Set/Increase/Decrease of any length over arbitrary byte-string "
               "keys and integers: no panic, the well-formedness invariant holds, and Get, the three-way split, subset sums, prefix sums and ordered iteration equal the sorted "
-              "map's, with TotalAccumulatedValue as the code computes it (the empty key's value - finding F2a). For all histories including Remove that do not panic: the stored leaves are the map's contents (push/updateAccumulation/pull "
+              "map's, and TotalAccumulatedValue is the sum of all values (F2a, repaired in /repo by 9b85b1164c). For all histories including Remove that do not panic: the stored leaves are the map's contents (push/updateAccumulation/pull "
               "never write below level 1), so Get and iteration are right, and any store still satisfying the invariant answers every query correctly. "
-              "The full statement (with Remove, and the true total) is refuted on the faithful model by five concrete histories (F2a-F2d), each replayed on the real code; the raw "
+              "The full statement (with Remove, and the true total) is refuted on the faithful model by four concrete histories (F2b-F2d), each replayed on the real code; the raw "
               "key layout is proved order-isomorphic to (level, key). The model is hand-written and compared with the real sumtree on an IAVL store after every operation of "
               "generated histories (queries, iteration, raw store dump node by node); an independent sorted-dict oracle judges the implementation's answers.")
 LEVEL_NOTE = ("Trusted: Coq kernel (vm_compute), no axioms; hand-written model C16/Model.v; Go driver harness/c16drv and python glue (bulk comparison by digest); "
